@@ -75,6 +75,7 @@ struct Ctx
     std::string gepExpr(GEPOperator* G, std::function<std::string(Value*)> val);
     std::string zeroOf(Type* T);
     int typeIdFor(Value* ti);
+    std::vector<Function*> indirectTargets(CallBase* CB);    // possible defined targets of an indirect call
     void emitTypeDecls(raw_ostream& os);
 };
 
